@@ -81,12 +81,10 @@ def p2res_of(ev_args, kids):
     if kind == 1:
         return "(RGoAway %d %s %s)" % (reason, nlist(debug), INITIATOR[ini]), "FLoop", []
     if kind == 2:
-        if ini == 2:
-            return "RResetRemote", "FLoop", []
         rg = [k for k in kids if k[0] == "conn.reset_goaway"]
         if rg:
-            return "(RResetLibrary (Some (%d, %s)))" % (rg[0][2], nlist(rg[0][3:])), "FLoop", []
-        return "(RResetLibrary None)", "FLoop", []
+            return "(RReset %s (Some (%d, %s)))" % (INITIATOR[ini], rg[0][2], nlist(rg[0][3:])), "FLoop", []
+        return "(RReset %s None)" % INITIATOR[ini], "FLoop", []
     io = [k for k in kids if k[0] == "conn.io"]
     if not io:
         raise ProjectionError("Io result without conn.io")
@@ -183,10 +181,16 @@ def labels_of_scenario(sc):
 
     def internal_result(j):
         """consume a conn.poll2_result (+ its nested events) that the model handles inside the current label"""
-        r, fl, o = p2res_of(evs[j][1][2:], [])
         ks, j2 = take_kids(j + 1, RESULT_KIDS)
         r, fl, o = p2res_of(evs[j][1][2:], ks)
         return r, fl, j2
+
+    def library_reason(j):
+        """the poll2 result after a failed apply_*_settings must be Error::library_go_away(reason)"""
+        a = evs[j][1][2:]
+        if not (a[1] == 1 and a[3] == 1 and len(a) == 5):
+            raise ProjectionError("apply_*_settings failed with something else than library_go_away: %r" % (a,))
+        return a[2]
 
     while i < n:
         stepno, e = evs[i]
@@ -270,7 +274,7 @@ def labels_of_scenario(sc):
             r = None
             if op.get("op") == "send_ping":
                 if res == "ok":
-                    r = ["OApi AOk"]
+                    r = ["OApi APingOk"]
                 elif isinstance(res, str) and "send_ping before received previous pong" in res:
                     r = ["OApi AErrPingPending"]
                 elif isinstance(res, str) and res.startswith("E(io"):
@@ -370,8 +374,9 @@ def labels_of_scenario(sc):
                         outs.append("OApplyRemoteFailed")
                         if nm(i) != "conn.poll2_result":
                             raise ProjectionError("apply_remote_settings failed without a poll2 result")
+                        reason = library_reason(i)
                         r, flow, i = internal_result(i)
-                        err, go_on = "(Some %s)" % r, False
+                        err, go_on = "(Some %d)" % reason, False
                 else:
                     c, flow, go_on = "IoErr", "FRaiseIo", False
                 add("LSettingsAck %s %s" % (c, err), pre=pre, outs=outs, flow=flow)
@@ -450,8 +455,9 @@ def labels_of_scenario(sc):
                     else:
                         if not follows:
                             raise ProjectionError("failed apply_local_settings without result")
+                        reason = library_reason(i)
                         r, flow, i = internal_result(i)
-                        add("LRecv (InSettingsAck (Some %s))" % r, pre=pre, outs=["OApplyLocalFailed"], flow=flow)
+                        add("LRecv (InSettingsAck (Some %d))" % reason, pre=pre, outs=["OApplyLocalFailed"], flow=flow)
             elif kind == 6:
                 flow = "FNext"
                 if follows:
@@ -740,6 +746,8 @@ def c15_oracle(sc):
     opened = set()
     fed_goaway = None          # (step, last, code) of the first well-formed GOAWAY fed
     fed_any_goaway = False
+    n_fed_goaway = 0
+    handed_out = set()         # stream ids send_request / push_request returned before the peer's GOAWAY was consumed
     clean = True
     polled_after_goaway = False
     graceful_at = None
@@ -758,6 +766,7 @@ def c15_oracle(sc):
                 clean = False
             elif w["t"] == "GOAWAY":
                 fed_any_goaway = True
+                n_fed_goaway += 1
                 if fed_goaway is None and clean:
                     fed_goaway = (st["i"], w["last"], w["code"])
             elif w["t"] == "PING" and w.get("ack") and gstate == 2 and be(w.get("payload") or op.get("bytes", [])[9:17]) == gpayload:
@@ -802,7 +811,8 @@ def c15_oracle(sc):
                 local = (sid % 2 == 1) == client
                 if local and sid not in opened:
                     opened.add(sid)
-                    if fed_goaway is not None and polled_after_goaway and sid > fed_goaway[1]:
+                    # a stream the API created before the GOAWAY was consumed may already sit in the write buffer
+                    if fed_goaway is not None and polled_after_goaway and sid > fed_goaway[1] and sid not in handed_out:
                         return {"class": "new-stream-after-goaway", "step": st["i"],
                                 "why": "a new locally initiated stream was started above the peer's GOAWAY last-stream id", "sid": sid, "goaway": fed_goaway}
         if o in ("conn_poll", "poll_accept") and clean and st["io"]["inbound"] == 0:
@@ -810,12 +820,14 @@ def c15_oracle(sc):
                 polled_after_goaway = True
             if gstate == 3:
                 gstate = 4
-        if o in ("send_request", "push_request") and fed_goaway is not None and polled_after_goaway and clean and isinstance(res, dict) and "sid" in res:
+        if o in ("send_request", "push_request") and isinstance(res, dict) and "sid" in res and not (fed_goaway is not None and polled_after_goaway):
+            handed_out.add(res["sid"])
+        elif o in ("send_request", "push_request") and fed_goaway is not None and polled_after_goaway and clean and isinstance(res, dict) and "sid" in res:
             if res["sid"] > fed_goaway[1]:
                 return {"class": "new-stream-after-goaway", "step": st["i"], "why": "%s handed out a new stream after the peer's GOAWAY was processed" % o,
                         "sid": res["sid"], "goaway": fed_goaway}
         cr = conn_result_of(res) if o == "conn_poll" else None
-        if cr is not None and fed_goaway is not None and polled_after_goaway and clean and fed_goaway[2] != 0 and not abrupt:
+        if cr is not None and fed_goaway is not None and n_fed_goaway == 1 and polled_after_goaway and clean and fed_goaway[2] != 0 and not abrupt:
             if cr == "ok" or (isinstance(cr, tuple) and not (cr[1] == fed_goaway[2] and cr[2] == "IRemote")):
                 return {"class": "result-without-peer-code", "step": st["i"], "why": "the connection's result does not report the peer's GOAWAY error code",
                         "result": res, "goaway": fed_goaway}
